@@ -408,6 +408,16 @@ func write(f *fox.Router, rc interface{ IntN(int) int }, c, ki int, gid int64, c
 					runtime.Gosched()
 				}
 			}
+			// a third of the transactions look at what they are about to publish (as the documentation's examples do)
+			switch rc.IntN(6) {
+			case 0:
+				for range txn.Iter().All() {
+				}
+			case 1:
+				if sn := txn.Snapshot(); sn != nil {
+					sn.Len()
+				}
+			}
 			if abort {
 				return errors.New("abort")
 			}
